@@ -20,8 +20,19 @@ from fractions import Fraction
 
 ROOT = "/verif"
 COQ = os.path.join(ROOT, "coq")
-REPO = "/repo"
+REPO = os.environ.get("VERIF_REPO", "/repo").rstrip("/")
 WORKROOT = os.path.join(ROOT, "_work")
+OUTROOT = ROOT          # evidence/ and replays/ live here
+if REPO != "/repo":
+    # Isolated run against a scratch copy of the repository (mutation testing, experiments):
+    # private copy of the Coq tree (gen/ is rewritten per repository), private work/evidence/replays.
+    _alt = os.path.join(ROOT, "_work", "alt", hashlib.sha1(REPO.encode()).hexdigest()[:10])
+    os.makedirs(_alt, exist_ok=True)
+    subprocess.run(["rsync", "-a", "--delete", os.path.join(ROOT, "coq") + "/",
+                    os.path.join(_alt, "coq") + "/"], check=True)
+    COQ = os.path.join(_alt, "coq")
+    WORKROOT = os.path.join(_alt, "work")
+    OUTROOT = _alt
 COQFLAGS = ["-Q", "base", "TT", "-Q", "model", "TT", "-Q", "proof", "TT", "-Q", "prop", "TT",
             "-Q", "gen", "TT"]
 GATE_RE = (r"Admitted|\badmit\b|\bAxiom\b|\bParameter\b|\bConjecture\b|Unset Guard|bypass_check|"
@@ -287,10 +298,16 @@ def run_cases(pid, header, cases, shard=250, timeout=900, workers=16, rtype="big
 # ----------------------------------------------------------------------------- findings, evidence
 
 def load_known():
+    out = []
     p = os.path.join(ROOT, "known_findings.json")
-    if not os.path.exists(p):
-        return []
-    return json.load(open(p))["findings"]
+    if os.path.exists(p):
+        out += json.load(open(p))["findings"]
+    d = os.path.join(ROOT, "known_findings.d")
+    if os.path.isdir(d):
+        for fn in sorted(os.listdir(d)):
+            if fn.endswith(".json"):
+                out += json.load(open(os.path.join(d, fn)))["findings"]
+    return out
 
 
 class Violation:
@@ -337,7 +354,7 @@ class Report:
         known = {k["key"]: k for k in load_known() if k["property"] == self.pid}
         n_viol = 0
         n_known = 0
-        os.makedirs(os.path.join(ROOT, "replays", self.pid), exist_ok=True)
+        os.makedirs(os.path.join(OUTROOT, "replays", self.pid), exist_ok=True)
         lines = []
         for v in self.violations:
             k = known.get(v.key)
@@ -349,7 +366,7 @@ class Report:
             blob = json.dumps(dict(property=self.pid, key=v.key, what=v.what, replay=v.replay,
                                    seed=self.seed, tier=self.tier), indent=1, default=str)
             h = hashlib.sha1(blob.encode()).hexdigest()[:12]
-            path = os.path.join(ROOT, "replays", self.pid, f"{h}.json")
+            path = os.path.join(OUTROOT, "replays", self.pid, f"{h}.json")
             with open(path, "w") as f:
                 f.write(blob)
             tail = "" if v.found_input else " no-failing-input-found"
@@ -372,8 +389,8 @@ class Report:
         ev = dict(property_id=self.pid, tier=self.tier, seed=self.seed, level="proof", coverage=cov,
                   assumptions=self.assumptions, wall_s=round(time.time() - self.t0, 2),
                   violations=n_viol)
-        os.makedirs(os.path.join(ROOT, "evidence"), exist_ok=True)
-        with open(os.path.join(ROOT, "evidence", f"{self.pid}.json"), "w") as f:
+        os.makedirs(os.path.join(OUTROOT, "evidence"), exist_ok=True)
+        with open(os.path.join(OUTROOT, "evidence", f"{self.pid}.json"), "w") as f:
             json.dump(ev, f, indent=1, default=str)
         for ln in lines:
             print(ln, flush=True)
